@@ -62,38 +62,45 @@ def npow (s : K) : Nat → K
   | 0 => 1
   | n + 1 => s * npow s n
 
+/-- series composition of two relations: same current, voltages add -/
+def SerRel (R1 R2 : K → K → Prop) (v i : K) : Prop := ∃ v1 v2, R1 v1 i ∧ R2 v2 i ∧ v = v1 + v2
+/-- parallel composition of two relations: same voltage, currents add -/
+def ParRel (R1 R2 : K → K → Prop) (v i : K) : Prop := ∃ i1 i2, R1 v i1 ∧ R2 v i2 ∧ i = i1 + i2
+
+def relR (r : K) (v i : K) : Prop := v = r * i
+def relL (s l : K) (i0 : Option K) (v i : K) : Prop := v = s * l * i - l * ic i0
+def relC (s c : K) (v0 : Option K) (v i : K) : Prop := i = s * c * v - c * ic v0
+
 /-- the defining relation of every leaf -/
 def Leaf.rel (s : K) : Leaf K → K → K → Prop
-  | .R r, v, i => v = r * i
-  | .G g, v, i => i = g * v
-  | .L l i0, v, i => v = s * l * i - l * ic i0
-  | .C c v0, v, i => i = s * c * v - c * ic v0
-  | .Y y, v, i => i = y * v
-  | .Z z, v, i => v = z * i
-  | .V _ e, v, _ => v = e
-  | .I _ j, _, i => i = -j
-  | .CPE k a, v, i => i = npow s a * k * v
-  | .Xtal c0 r1 l1 c1, v, i =>
-      -- (R1 + L1 + C1) | C0 : branch current i1 through the series arm, i2 through C0
-      ∃ i1 i2 vc, i = i1 + i2 ∧ i2 = s * c0 * v ∧ i1 = s * c1 * vc ∧ v = r1 * i1 + s * l1 * i1 + vc
-  | .FB rs rp cp lp, v, i =>
-      -- Rs + (Rp | Lp | Cp) : vp = voltage across the parallel part
-      ∃ vp ir il, v = rs * i + vp ∧ vp = rp * ir ∧ vp = s * lp * il ∧ i = ir + il + s * cp * vp
+  | .R r => relR r
+  | .G g => fun v i => i = g * v
+  | .L l i0 => relL s l i0
+  | .C c v0 => relC s c v0
+  | .Y y => fun v i => i = y * v
+  | .Z z => fun v i => v = z * i
+  | .V _ e => fun v _ => v = e
+  | .I _ j => fun _ i => i = -j
+  | .CPE k a => fun v i => i = npow s a * k * v
+  | .Xtal c0 r1 l1 c1 =>      -- (R1 + L1 + C1) | C0
+      ParRel (SerRel (SerRel (relR r1) (relL s l1 none)) (relC s c1 none)) (relC s c0 none)
+  | .FB rs rp cp lp =>         -- Rs + (Rp | Lp | Cp)
+      SerRel (relR rs) (ParRel (ParRel (relR rp) (relL s lp none)) (relC s cp none))
 
 mutual
 /-- the set of (v, i) pairs a network admits at the point `s` -/
 def Net.rel (s : K) : Net K → K → K → Prop
-  | .leaf l, v, i => l.rel s v i
-  | .ser as, v, i => relSer s as v i
-  | .par as, v, i => relPar s as v i
+  | .leaf l => l.rel s
+  | .ser as => relSer s as
+  | .par as => relPar s as
 /-- series: the same current through every argument, the voltages add -/
 def relSer (s : K) : List (Net K) → K → K → Prop
-  | [], v, _ => v = 0
-  | a :: t, v, i => ∃ v1 v2, a.rel s v1 i ∧ relSer s t v2 i ∧ v = v1 + v2
+  | [] => fun v _ => v = 0
+  | a :: t => SerRel (a.rel s) (relSer s t)
 /-- parallel: the same voltage across every argument, the currents add -/
 def relPar (s : K) : List (Net K) → K → K → Prop
-  | [], _, i => i = 0
-  | a :: t, v, i => ∃ i1 i2, a.rel s v i1 ∧ relPar s t v i2 ∧ i = i1 + i2
+  | [] => fun _ i => i = 0
+  | a :: t => ParRel (a.rel s) (relPar s t)
 end
 
 /-- Thévenin description: the network admits exactly the pairs on the line v = Voc + Z i -/
